@@ -316,6 +316,7 @@ struct TCallback
 	int tag; // free for drivers (e.g. which prototype it was created for)
 
 	explicit TCallback(int id, int tag_ = 0) : c(id), tag(tag_) {}
+	TCallback() : c(-1), tag(0) {} // "no callback" (the library never makes one today; a changed library that does still compiles against the harness)
 	TCallback(const TCallback & o) : c((faultPoint(F_CB_COPY), o.c)), tag(o.tag) { CallbackSink * s = callbackSink(); if(s) s->onCopy(c.id); }
 	TCallback(TCallback && o) noexcept : c(std::move(o.c)), tag(o.tag) {}
 	TCallback & operator = (const TCallback & o) { faultPoint(F_CB_COPY); c = o.c; tag = o.tag; return *this; }
@@ -337,6 +338,9 @@ struct TCallback
 		CallbackSink * s = callbackSink();
 		invokedInstance() = this;
 		if(s) s->onCall(c.id, p, m);
+		// the callback may have removed itself, re-invoked its list, ... - the object that is running must survive all of that
+		// until its operator() returns (the invocation keeps its node alive)
+		c.checkLive("callback-object-destroyed-while-its-invocation-was-still-running");
 		// behave like a listener that takes its parameters by value and consumes them: whatever arrives as an
 		// rvalue is moved from.  Harmless when the library hands every listener its own copy, visible to the
 		// next listener if the library forwarded a shared argument.
